@@ -14,7 +14,7 @@ def load_units(names=None):
 
 # property -> units whose obligations (clauses tagged with the property) decide it
 PROP_UNITS = {
-    'C01': ['lemmas', 'cbc', 'pcbc', 'ige', 'cfb', 'cfb8', 'ofb', 'ctr', 'belt'],
+    'C01': ['lemmas', 'cbc', 'pcbc', 'ige', 'cfb', 'cfb8', 'ofb', 'ctr', 'belt', 'cts'],
     'C02': ['cbc', 'pcbc', 'ige'],
     'C03': ['cfb', 'cfb8', 'ofb'],
     'C04': ['ctr'],
@@ -25,7 +25,10 @@ PROP_UNITS = {
     'C09': ['lemmas', 'cbc', 'pcbc', 'ige', 'cfb', 'cfb8', 'ofb', 'ctr', 'belt'],
     'C10': ['ctr', 'belt'],
     'C11': ['ctr', 'belt'],
-    'C12': ['cbc', 'pcbc', 'ige', 'cfb', 'cfb8', 'ofb', 'ctr', 'belt'],
+    'C12': ['cbc', 'pcbc', 'ige', 'cfb', 'cfb8', 'ofb', 'ctr', 'belt', 'cts'],
+    'C13': ['cts', 'cbc', 'pcbc', 'ige', 'cfb', 'cfb8', 'ofb', 'ctr', 'belt'],
+    'C14': ['lemmas', 'cts', 'ofb', 'cfb', 'ctr', 'belt', 'cbc'],
+    'C16': ['ctr', 'cbc', 'pcbc', 'ige', 'cfb', 'cfb8', 'ofb', 'belt', 'cts'],
     'C15': ['lemmas', 'cbc', 'pcbc', 'ige', 'cfb', 'cfb8', 'ofb', 'ctr', 'belt'],
     'C17': ['cbc', 'pcbc', 'ige', 'cfb', 'cfb8', 'ofb', 'ctr', 'belt'],
 }
@@ -36,12 +39,82 @@ _NOTE = ('Assumed, not proved: the shim contracts of the cipher/inout/hybrid-arr
          'block cipher being a fixed function. Repo functions outside the Verus subset are external_body in Verus and '
          'checked by Kani with stated bounds (labelled bounded, never counted as proved).')
 
+_T = ('contract-based deductive verification: Verus on the mechanically extracted repo functions (requires/ensures, loop '
+      'invariants, ghost lemmas); Kani / native replay harnesses only as bounded stand-in, conformance check and counterexample search')
+
+
+def _lv(text, note_extra='', ref='DESIGN.md 4'):
+    return {'text': text, 'note': _NOTE + (' ' + note_extra if note_extra else ''), 'design_ref': ref, 'technique': _T}
+
+
 LEVEL = {
-    'C02': {'text': 'Every CBC/PCBC/IGE backend method, state import/export and plumbing function of /repo is extracted '
-                    'token-exactly on each run and verified by Verus against the recurrence transcribed from the '
-                    'property (uninterpreted E/D, any block size, any parallel width, both aliasing cases). '
-                    'Unbounded proof of the repo functions; composition with the dependency drivers is assumed.',
-            'note': _NOTE, 'design_ref': 'DESIGN.md 4 (C02), 3.1-3.8'},
+    'C01': _lv('Round-trip lemmas over the transducer specs (CBC, PCBC, IGE, CFB, CFB-8, OFB, keystream involution for CTR/BelT) are '
+               'proved by induction in Verus for all ciphers with D.E = id, all block sizes and lengths; every backend / core function of '
+               'the nine crates is proved equal to its spec step (code = spec), so the block-level round trip follows for all inputs. '
+               'Length preservation is part of every contract.',
+               'Bounded only: the six cts decrypt closures (harness vs NIST reference, b in {2,3}, L <= 3b+1), buffered-CFB data functions, '
+               'and the composition with the padded / one-shot / stream front-ends of the cipher crate (driver harnesses).'),
+    'C02': _lv('Every CBC/PCBC/IGE backend method, state import/export and plumbing function of /repo is extracted token-exactly on each run '
+               'and verified by Verus against the recurrence transcribed from the property (uninterpreted E/D, any block size, any parallel '
+               'width, both aliasing cases, arbitrary ciphertext). Unbounded proof of the repo functions.',
+               'The three `xor` helpers (iter_mut().zip()) are external_body: checked by Kani harnesses for block sizes 1,2,3 (bounded).'),
+    'C03': _lv('CFB (block and parallel decrypt), CFB-8 (shift register loop) and OFB (one backend behind three traits) are verified by Verus '
+               'against their recurrences for all E, block sizes, widths; only the encryption direction of the cipher appears in the types.',
+               'BufEncryptor::encrypt / BufDecryptor::decrypt and xor_set1/2 are outside the Verus subset: their byte-transducer contract is '
+               'assumed in Verus and checked by Kani / native harnesses for b in {1,2,3}, every pos, |data| <= 12 (bounded).'),
+    'C04': _lv('All six flavour impls (from_nonce, current_block, next_block, remaining, as/set_from_backend) and the CtrCore backend '
+               '(single and parallel keystream generation) are verified by Verus against the byte-level layout function of the property '
+               '(field = last / first w/8 bytes read BE / LE, replaced by (field + i) mod 2^w, other bytes unchanged) for every block size '
+               'that is a multiple of the counter size, every IV and every position.',
+               'std byte-order conversions are assumed with their mathematical definition (digits base 256).'),
+    'C05': _lv('The bulk helpers (cbc_enc, cbc_dec, ecb_enc, ecb_dec incl. their own parallel chunking), the twelve length gates and all six '
+               'ENCRYPT closures are verified by Verus against a transcription of NIST SP 800-38A Addendum CS1/CS2/CS3 for every block size, '
+               'every length >= b (every residue, one block, whole blocks), both aliasing cases.',
+               'The six DECRYPT closures and the *_b2b defaults are not yet under a Verus contract: checked by harnesses against an executable '
+               'NIST reference (b in {2,3}, every L <= 3b+1, widths 2, in place and buffer to buffer) -- bounded.'),
+    'C06': _lv('BeltCtrCore init (s = le128(E(IV))), gen_ks_block (pre-increment mod 2^128, E(le128(s))), the parallel body, seek and '
+               'remaining are verified by Verus for all E, IVs, positions and widths, including wrap of s across 2^128.'),
+    'C07': _lv('The transducer contract is stated once on the shim traits; every single-block and parallel backend method meets it '
+               '(Verus), run_concat / ks_run_concat give every partition, the dependency\'s default decrypt_par_blocks loop is verified against '
+               'the same contract, and the repo-side chunking of the cts helpers is verified as code.',
+               'cipher::block::ctx (BlocksCtx: who calls what in which order) is assumed; exercised by the block-mode harnesses with widths 2, 3 '
+               'and batch sizes with tails (bounded).'),
+    'C08': _lv('Byte-splitting follows from run_concat / ks_run_concat / lemma_cfb_buf_concat (proved, any cut incl. empty pieces) over the '
+               'code = spec contracts; prefix preservation is lemma_run_prefix.',
+               'The byte-buffering of StreamCipherCoreWrapper and the buffered-CFB data functions are dependency / external_body code: '
+               'checked by stream harnesses with two-piece splits at every offset (bounded).'),
+    'C09': _lv('Contracts of every iv_state / inner_iv_init / get_state / from_state are verified (identity on the chaining value; CFB: E in, D '
+               'out; BelT: D(le128(s)) out; CTR: current counter block out, from_nonce in); resume lemmas and equal-state lemmas are proved.',
+               'Needs D.E = E.D = id as lemma hypotheses. CTR resume keeps the keystream but restarts the position (stated).'),
+    'C10': _lv('get/set_block_pos of CtrCore (all flavours) and BeltCtrCore are verified: position read-back is exact, the origin is preserved, '
+               'and the state equals the origin advanced by the position (lemma_pos_coherent, proved per type).',
+               'Byte offsets inside a block, backward seeks and current_pos overflow live in StreamCipherCoreWrapper / SeekNum (dependency): '
+               'assumed, exercised by the stream harnesses (bounded).'),
+    'C11': _lv('remaining() of all six flavours and of BelT is verified exact (Some(2^w-1-pos) iff representable); every keystream step advances '
+               'the position by exactly one mod 2^w.',
+               'check_remaining / try_seek are dependency code. Known finding F2 (seek past the limit wraps) is in the cipher crate, recorded.'),
+    'C12': _lv('Every contract over InOut / InOutBuf is proved with the aliasing flag universally quantified and no assumption on the initial '
+               'output contents; right-hand sides mention only the input at entry. Includes the cts encrypt closures and helpers.',
+               'cts decrypt closures: harness (in place and buffer to buffer, arbitrary initial output) -- bounded.'),
+    'C13': _lv('Length gates of all six cts variants: Err exactly when shorter than one block, with the frame clause (buffer untouched). Every '
+               'function verified by Verus is free of panics under call-site-derived preconditions (index bounds, overflow, unwrap, '
+               'debug_assert rewritten to an obligation).',
+               '*_b2b defaults (closure patterns), cts decrypt closures, buffered CFB: harness only (bounded). Key/IV slice lengths and padded '
+               'decryption are decided in crypto-common / cipher (assumed).'),
+    'C14': _lv('Front-ends are equal because they are proved equal to one shared spec function: OFB block step = keystream step (lemma), '
+               'cts::cbc_enc/cbc_dec and the cbc crate against the same run(cbc step), CS1/CS2/CS3 on whole blocks (lemmas), buffered CFB on a '
+               'whole block = block CFB step (lemma_cfb_buf_block).',
+               'KeyIvInit / from_core construction equivalence is dependency code (assumed).'),
+    'C15': _lv('Pure lemmas on the decrypt transducers (causality, CBC / CFB propagation and re-synchronisation, keystream flip, PCBC state '
+               'difference, CFB-8 register shift) over the code = spec contracts.',
+               '"garbles" is proved as the exact propagated difference; that it is non-zero needs injectivity of the cipher.'),
+    'C16': _lv('CtrCore::clone copies cipher and counter state (Verus); every mutation is through &mut self / caller buffers (typing); a '
+               'mechanical scan finds no static mut / thread_local / Cell / Atomic / unsafe in the crates.',
+               'derive(Clone) has no Verus spec: clone-independence harnesses (native, randomised histories) stand in -- bounded.'),
+    'C17': _lv('Every Debug::fmt and write_alg_name body is read mechanically as a sequence of literal / type-name writes and verified to append '
+               'exactly that self-free text (prefix of it on error); every Drop body is verified to zero each state field (zeroize cfg on).',
+               'Compiler elision of the stores and residue outside the fields are out of reach of contracts; native harness inspects the '
+               'object bytes after drop (feature zeroize).'),
 }
 
 NOT_APPLICABLE = {}
@@ -74,6 +147,21 @@ def _scan_harnesses():
             info['props'] = list(_MODE_PROPS.get(mode, []))
             info['bounds'] = '%s %s: block size %s bytes, cipher parallel width %s, %s blocks (1 block then the rest), %s; all IVs, data and cipher outputs symbolic' % (
                 mode, m.group(2), m.group(3), m.group(4), m.group(5), {'ip': 'in place', 'b2b': 'buffer to buffer', None: ''}[m.group(6)])
+        if n.startswith('misc_'):
+            kind = n.split('_')[1]
+            rest = n[len('misc_' + kind + '_'):]
+            unit = None
+            for key, u in (('cfbbuf', 'cfb'), ('cfb8', 'cfb8'), ('cfb', 'cfb'), ('pcbc', 'pcbc'), ('cbc', 'cbc'), ('ige', 'ige'),
+                           ('ofb', 'ofb'), ('ctr', 'ctr'), ('belt', 'belt')):
+                if rest.startswith(key):
+                    unit = u
+                    break
+            info = {'units': [unit] if unit else [], 'kani': False,
+                    'props': {'debug': ['C17'], 'drop': ['C17'], 'clone': ['C16', 'C01'], 'indep': ['C16']}.get(kind, []),
+                    'bounds': {'debug': 'Debug text of two instances with different key / IV / history / position is equal (native random search, toy invertible cipher)',
+                               'drop': 'feature zeroize: after drop no 8-byte window of the exported state is left in the object storage (native, 16-byte toy cipher)',
+                               'clone': 'clone after a random history; original and clone interleaved equal two fresh replays, incl. positions and seeks (native)',
+                               'indep': 'instances over different block sizes used in one process do not influence each other (native)'}.get(kind, n)}
         out[n] = info
     out.update(HARNESS_OVERRIDES)
     return out
@@ -119,7 +207,13 @@ def harness_applies(h, prop):
 # the property depends on) and of the thorough tier
 PROP_HARNESS = {
     'C02': {'quick': ['cbc_dec_b2w2_n3_b2b', 'pcbc_enc_b2w2_n3_ip'],
-            'thorough': ['cbc_enc_b2w2_n3_ip', 'cbc_dec_b2w2_n3_ip', 'cbc_dec_b2w2_n3_b2b', 'pcbc_enc_b2w2_n3_ip', 'pcbc_dec_b2w2_n3_b2b']},
+            'thorough': ['cbc_enc_b2w2_n3_ip', 'cbc_dec_b2w2_n3_ip', 'cbc_dec_b2w2_n3_b2b', 'pcbc_enc_b2w2_n3_ip', 'pcbc_dec_b2w2_n3_b2b',
+                         'cbc_dec_b3w3_n5_b2b', 'cbc_enc_b3w3_n4_b2b', 'cbc_dec_b1w3_n5_b2b', 'pcbc_dec_b3w3_n4_b2b', 'pcbc_enc_b3w3_n4_b2b',
+                         'ige_enc_b2w2_n3_b2b', 'ige_dec_b2w2_n3_ip', 'ige_dec_b3w2_n3_b2b']},
     'C03': {'quick': ['cfb_dec_b2w2_n3_b2b', 'ofb_enc_b2w2_n3_b2b'],
-            'thorough': ['cfb_enc_b2w2_n3_b2b', 'cfb_dec_b2w2_n3_ip', 'cfb_dec_b2w2_n3_b2b', 'ofb_enc_b2w2_n3_b2b', 'ofb_dec_b2w2_n3_ip']},
+            'thorough': ['cfb_enc_b2w2_n3_b2b', 'cfb_dec_b2w2_n3_ip', 'cfb_dec_b2w2_n3_b2b', 'ofb_enc_b2w2_n3_b2b', 'ofb_dec_b2w2_n3_ip',
+                         'cfb_dec_b3w3_n5_b2b', 'cfb_enc_b3w3_n4_ip', 'cfb8_enc_b2w2_n4_b2b', 'cfb8_dec_b3w2_n4_b2b', 'ofb_enc_b3w3_n4_ip']},
+    'C01': {'quick': [], 'thorough': ['cbc_dec_b3w3_n5_b2b', 'pcbc_dec_b3w3_n4_b2b', 'ige_dec_b3w2_n3_b2b', 'cfb_dec_b3w3_n5_ip']},
+    'C07': {'quick': ['cbc_dec_b2w2_n3_ip'], 'thorough': ['cbc_dec_b3w3_n5_ip', 'cbc_dec_b1w3_n5_b2b', 'cfb_dec_b3w3_n5_b2b', 'pcbc_dec_b3w3_n4_b2b']},
+    'C12': {'quick': ['pcbc_dec_b2w2_n3_b2b'], 'thorough': ['cbc_dec_b3w3_n5_b2b', 'cfb_dec_b3w3_n5_b2b', 'ige_dec_b3w2_n3_b2b', 'cfb8_dec_b3w2_n4_b2b']},
 }
